@@ -1,7 +1,8 @@
 (* C01 — Compiled execution preserves the meaning of the parsed program.
    Statements only (closed by [exact]), non-vacuity examples, the refuted full statement. *)
 From Verif Require Import Lib.Base Model.Ast Model.Instr Model.Compiler Model.Prims Model.VM Model.AstSem
-  Model.PrimsToy Proofs.PrimsOk Proofs.SimDefs Proofs.CompilerCorrect Proofs.PrimsToyOk Proofs.CompLemmas.
+  Model.PrimsToy Model.CancelToy Model.ExecToy Proofs.PrimsOk Proofs.SimDefs Proofs.CompilerCorrect Proofs.PrimsToyOk
+  Proofs.CompLemmas Proofs.ExecToyOk.
 
 (* For every implementation P of the interpreter's primitive operations that satisfies the
    equations [prims_ok] (the two code sites of a duplicated operation agree; x+1 is what Incr
@@ -71,6 +72,25 @@ Theorem C01_code_size_context_independent :
   forall ss l l', same_kind l l' -> csize (comp_stmts l ss) = csize (comp_stmts l' ss).
 Proof. exact stmts_size_kind. Qed.
 Print Assumptions C01_code_size_context_independent.
+
+(* ---- the executable instance that is run against goawk ----
+   [xprims] (Model/ExecToy.v: integers, global scalars and arrays, locals, arithmetic,
+   comparisons, user calls, for-in, print of numbers) is the primitive record of the execution
+   correspondence (harness/c01: both model semantics vs the implementation's output, status and
+   error).  It meets the hypotheses of the theorems above, so for THIS record the statement is
+   closed: whatever the tree semantics computes for a program with one BEGIN block, the code the
+   model compiler emits computes too. *)
+Theorem C01_executable_instance_ok : prims_ok xprims /\ concat_indep xprims.
+Proof. exact (conj xprims_ok xprims_indep). Qed.
+Print Assumptions C01_executable_instance_ok.
+
+Theorem C01_executable_instance_correct :
+  forall (p : program) (b : stmts) (n : nat),
+  p_begin p = [b] ->
+  good_end (toy_ast_run n p) ->
+  exists k0, forall k, (k0 <= k)%nat -> toy_vm_run k p = toy_ast_run n p.
+Proof. exact toy_instance_correct. Qed.
+Print Assumptions C01_executable_instance_correct.
 
 (* ---- non-vacuity: an instance meeting the hypotheses, and a program run through both
         semantics inside Coq ---- *)
